@@ -254,7 +254,7 @@ def runOp (K : Keys) (committedKeys : String) (lite : Bool) (skipM0 : Bool) (ses
         let p := absPos b
         let m0 := if skipM0 then "" else if Spec.legal p m then s!"r=ok {specobs K (Spec.apply p m)}" else "r=illegal"
         match b.makeMove K m with
-        | .ok nb => s!"r=ok {posobs nb} same=1 ## {m0}"
+        | .ok nb => s!"r=ok {posobs nb} same=1 sc03=- ## {m0}"
         | .error _ => s!"r=illegal same=1 ## {m0}")
   | "univ" => (sess, withNormBoard fun b =>
       let acc := sortStrs ((moveUniverse.filter (b.isLegalMove K)).map moveText)
@@ -405,6 +405,17 @@ def runOp (K : Keys) (committedKeys : String) (lite : Bool) (skipM0 : Bool) (ses
       (sess, s!"tags={hexText tags} words={hexText (Game.joinWith [' '] words)} rt={rt} ## ")
     | none => (sess, "bad-session ## ")
   | "g.frompgn" => (sess, "r=* ## ")
+  | "rx" => (sess,
+      match unhexText (arg 1) with
+      | none => "bad-hex ## "
+      | some t =>
+        let secs := PgnRegex.splitSections t
+        match PgnRegex.regexMovesSection t with
+        | none => s!"sec=none nsec={secs.length} ## "
+        | some ms =>
+          let toks := PgnRegex.findMoves ms
+          let res := match PgnRegex.findResult ms with | some r => hexText r | none => "none"
+          s!"sec={hexText ms} nsec={secs.length} moves={hexText (Game.joinWith [' '] toks)} n={toks.length} res={res} ## ")
   | "tbl" => (sess, s!"v={tblBlob (arg 1)} ## ")
   | "prim" => (sess, s!"v={primBlob (arg 1)} ## ")
   | "bb" =>
